@@ -43,7 +43,7 @@ EXTRA_DEPS = {"tower-resilience-fallback": ["tokio"]}
 INJECT = {
     "tower-resilience-circuitbreaker": [("circuit.rs", "in_circuit.rs", "kani")],
     "tower-resilience-ratelimiter": [("limiter.rs", "in_limiter.rs", "kani")],
-    "tower-resilience-core": [("aimd.rs", "in_aimd.rs", "kani")],
+    "tower-resilience-core": [("aimd.rs", "in_aimd.rs", "kani"), ("aimd.rs", "in_aimd_rg.rs", 'all(kani, feature = "verif-hooks")')],
     "tower-resilience-adaptive": [("algorithm.rs", "in_algorithm.rs", "kani"), ("service.rs", "in_service.rs", "kani")],
     "tower-resilience-retry": [("budget.rs", "in_budget.rs", 'all(kani, feature = "verif-hooks")')],
 }
@@ -54,8 +54,8 @@ RECONNECT = "tower-resilience-reconnect"
 # ---------------------------------------------------------------------------
 # C14 backoff
 # ---------------------------------------------------------------------------
-_c14 = lambda n, what, bound, **kw: H("verif_kani::c14::" + n, RETRY, what, bound, models=("rand",), **kw)
-_c14r = lambda n, what, bound, **kw: H("verif_kani::c14::" + n, RECONNECT, what, bound, models=("rand",), **kw)
+_c14 = lambda n, what, bound, **kw: H("verif_kani::c14::" + n, RETRY, what, bound, models=("rand", "tokio"), **kw)
+_c14r = lambda n, what, bound, **kw: H("verif_kani::c14::" + n, RECONNECT, what, bound, models=("rand", "tokio"), **kw)
 PROPS["C14"] = Prop(
     harnesses=[
         _c14("fixed_total", "FixedInterval::next_interval is total and constant",
@@ -174,6 +174,8 @@ PROPS["C13"] = Prop(
     harnesses=[
         H("aimd::verif_kani_in_aimd::aimd_limit_in_bounds_step", CORE, "AimdController: from any limit in [min,max] every operation stores a limit in [min,max]",
           "min <= max <= 2^32, any initial/increase, decrease_factor any f64 in [0,1], record_successes(any count)", timeout=600),
+        H("aimd::verif_kani_in_aimd_rg::aimd_every_write_in_bounds_under_interference", CORE, "AimdController under interference: every write (store / fetch_add / fetch_sub / CAS) leaves the limit in [min,max]",
+          "any config min <= max <= 2^32; <= 2 interfering writes of arbitrary in-bounds values before any atomic step", features=("verif-hooks",), playback=False, timeout=900),
         H("algorithm::verif_kani_in_algorithm::vegas_limit_in_bounds_failure", ADAPT, "Vegas::record_failure keeps the limit in bounds", "arbitrary internal state, min <= max <= 2^32", models=("tokio",), timeout=600),
         H("algorithm::verif_kani_in_algorithm::vegas_limit_in_bounds_adjust", ADAPT, "Vegas::adjust_limit keeps the limit in bounds, unit steps", "arbitrary RTT statistics (any u64), any alpha/beta", models=("tokio",), timeout=900),
         H("algorithm::verif_kani_in_algorithm::vegas_update_rtt_keeps_limit", ADAPT, "Vegas::update_rtt does not touch the limit", "any latency <= 1 h", models=("tokio",), timeout=600),
@@ -291,6 +293,9 @@ PROPS["C18"] = Prop(
         _hc("round_robin_n2", "round-robin, 2 resources", "2 resources, any counter value", timeout=900, tiers=("thorough",)),
         _hc("empty_list_selects_nothing", "empty resource list", "", timeout=600),
         _hc("round_robin_successor", "round-robin: two consecutive selections return an eligible resource and its cyclic successor among the eligible ones (=> even visiting)", "3 resources, all status vectors, counter start < 2^32", timeout=1800),
+        _hc("thresholds_two_ticks", "periodic check task: published status flips exactly at the thresholds; get_healthy/get_usable follow it",
+            "1 resource, 2 interval ticks, per-tick result symbolic (healthy/degraded/unhealthy/unknown/slower than timeout), thresholds 1..=3", profile="service", mem_gb=30, timeout=3000),
+        _hc("thresholds_three_ticks", "same, 3 ticks", "3 ticks", profile="service", mem_gb=30, timeout=5400, tiers=("thorough",)),
         _hc("custom_selector_sees_statuses", "custom selector receives the published statuses; its answer is returned", "3 resources", timeout=900),
     ],
     functions=["tower_resilience_healthcheck::selector::SelectionStrategy::select", "HealthCheckedContext::{new,status,set_status}"],
@@ -325,14 +330,14 @@ _h12 = lambda n, what, bound, timeout=3000, **kw: H("verif_kani::c12::" + n, HED
 PROPS["C12"] = Prop(
     harnesses=[
         _h12("latency_mode_two_attempts", "latency mode (fixed positive delay), max_hedged_attempts = 2",
-             "delay any whole ms in (0, 30 s]; per-attempt latency any whole ms <= 60 s, ok/err outcome; 4 scheduling rounds: advance clock by any amount, run any subset of the attempt tasks, poll the call"),
+             "delay any whole ms in (0, 30 s]; per-attempt latency any whole ms <= 60 s, ok/err outcome; 4 scheduling rounds: advance the clock by any amount, run the attempt tasks, poll the call"),
         _h12("parallel_mode_two_attempts", "parallel mode (Immediate), 2 attempts", "3 rounds, otherwise as above"),
         _h12("single_attempt", "max_hedged_attempts = 1", "3 rounds", tiers=("thorough",)),
         _h12("zero_delay_two_attempts", "Fixed(0) delay = parallel", "3 rounds", tiers=("thorough",)),
         _h12("latency_mode_three_attempts", "latency mode, 3 attempts", "5 rounds", tiers=("thorough",), timeout=5400),
     ],
     functions=["tower_resilience_hedge::{Hedge::{new,poll_ready,call},execute_with_hedging}", "HedgeDelay::get_delay"],
-    bounds="max_hedged_attempts 1..=3 (quick: 2), <= 4 (5) scheduling rounds, latencies <= 60 s, delay <= 30 s",
+    bounds="max_hedged_attempts 1..=3 (quick: 2), 3-5 scheduling rounds, latencies <= 60 s, delay <= 30 s",
     outside="more scheduling rounds / attempts; per-attempt Dynamic delays; that tokio's timer wakes the call at the delay (the harness polls at arbitrary instants)",
     assumptions=["tokio spawn / mpsc / sleep replaced by the model; the harness is the scheduler; `select!` is tokio's macro text (biased)", "Instant::now -> virtual clock"],
 )
@@ -379,7 +384,7 @@ PROPS["C05"] = Prop(
 # ---------------------------------------------------------------------------
 # C08 retry budgets
 # ---------------------------------------------------------------------------
-_c08 = lambda n, what, bound, **kw: H("budget::verif_kani_in_budget::" + n, RETRY, what, bound, models=("rand",),
+_c08 = lambda n, what, bound, **kw: H("budget::verif_kani_in_budget::" + n, RETRY, what, bound, models=("rand", "tokio"),
                                       features=("verif-hooks",), playback=False, **kw)
 PROPS["C08"] = Prop(
     harnesses=[
